@@ -21,6 +21,7 @@ from pyvc.core import Closure, Env, STup, SI, SB, SExc, Model, Builtin, Namespac
 from pyvc.unit import run_unit
 from contracts.nof import Coef, Placeholder, OpModel, Fock, ff_lemmas, KINDS
 from contracts.formats import T, term_eq
+from pyvc.models import ZERO
 
 MODULE = "second_quantization"
 
@@ -545,3 +546,144 @@ def unit_operator_diag_offdiag(variant, timeout_ms=20000):
                 eng.oblige(f"{which}:series-read-at-the-requested-index", z3.BoolVal(ser.key is index))
     return run_unit(f"block_diagonalization:block_diagonalize/diag+offdiag[operator-valued,{variant} masks]", harness,
                     functions=[("block_diagonalization", f"block_diagonalize/diag#{ordinal}"), ("block_diagonalization", f"block_diagonalize/offdiag#{ordinal}")], timeout_ms=timeout_ms)
+
+
+# ==================================================================================================
+# block_diagonalize: the second-quantized entry and exit wrappers (C07, C14)
+#   H_eval(*index): reads H_orig at the same index exactly once; zero stays zero; a scalar term of a scalar Hamiltonian is wrapped into a 1 x 1 matrix;
+#                   every entry of the (mutable or immutable) matrix is converted with NumberOrderedForm.from_expr over the common operator list;
+#                   no other value is silently turned into None.
+#   postprocessing_eval(*index): reads the wrapped series at the same index; non-matrix values (sentinels) pass through; every NumberOrderedForm entry is
+#                   simplified with _poly_simplify (value preserving, A-SY2), other entries are untouched; a 1 x 1 result of a scalar Hamiltonian is unwrapped.
+# ==================================================================================================
+
+def unit_h_eval(kind, scalar_input, timeout_ms=20000):
+    """kind: 'zero' | 'scalar' | 'matrix' | 'immutable'"""
+    node = frontend.find("block_diagonalization", "block_diagonalize/H_eval")
+
+    def harness(eng):
+        from contracts.formats import T, Val
+        reads = []
+        OPS = T("operators")
+
+        class Mat(T):
+            def __init__(s, head, kinds):
+                super().__init__(head)
+                s.kinds = kinds
+
+            def m_getattr(s, e, name):
+                if name == "applyfunc":
+                    def af(e2, fn):
+                        x = T("entry")
+                        return T("applyfunc", s, e2.call(fn, [x], {}))
+                    return Builtin("applyfunc", af)
+                return super().m_getattr(e, name)
+        value = {"zero": ZERO, "scalar": Val("expr", ("Expr",)), "matrix": Mat("matrix", ("MatrixBase", "Matrix", "MutableDenseMatrix")),
+                 "immutable": Mat("immutable_matrix", ("MatrixBase", "Expr", "ImmutableMatrix", "ImmutableDenseMatrix"))}[kind]
+
+        class Horig(Model):
+            def m_getitem(s, e, key):
+                reads.append(key)
+                return value
+
+        def sym_matrix(e, rows):
+            r = e.as_seq(rows)
+            inner = e.as_seq(r.items[0])
+            if len(r.items) == 1 and len(inner.items) == 1:
+                return Mat("wrapped-1x1", ("MatrixBase", "Matrix", "MutableDenseMatrix")) if inner.items[0] is value else T("?")
+            raise Unsupported("sympy.Matrix of another shape")
+        MatrixCls = Builtin("sympy.Matrix", sym_matrix)
+        MatrixCls.name = "Matrix"
+        nof_calls = []
+        eng.globals.update({"zero": ZERO,
+                            "sympy": Namespace("sympy", {"MatrixBase": TypeObj("MatrixBase"), "Matrix": MatrixCls, "Expr": TypeObj("Expr")}),
+                            "NumberOrderedForm": Namespace("NumberOrderedForm", {"from_expr": Builtin("from_expr", lambda e, x, ops=None: (nof_calls.append((x, ops)), T("from_expr", x, ops))[1])})})
+        env = Env(None, {"H_orig": Horig(), "scalar_input": scalar_input, "operators": OPS})
+        idx = STup([SI(eng.fresh("i")), SI(eng.fresh("j")), SI(eng.fresh("n"))])
+        res = eng.call(Closure(node, env, "H_eval"), [], {"__star__": idx}) if False else eng.call(Closure(node, env, "H_eval"), list(idx.items), {})
+        eng.oblige("reads-the-original-series-once-at-the-requested-index", z3.BoolVal(len(reads) == 1 and len(eng.as_seq(reads[0]).items) == 3 and all(a is b for a, b in zip(eng.as_seq(reads[0]).items, idx.items))),
+                   detail=repr(reads)[:200])
+        if kind == "zero":
+            return eng.oblige("zero-stays-zero", z3.BoolVal(res is ZERO))
+        eng.oblige("never-returns-None-for-a-term", z3.BoolVal(res is not None), detail="a term that is neither zero nor converted would silently become None")
+        if res is None:
+            return
+        ok = isinstance(res, T) and res.head == "applyfunc" and isinstance(res.args[1], T) and res.args[1].head == "from_expr" and res.args[1].args[1] is OPS \
+            and isinstance(res.args[1].args[0], T) and res.args[1].args[0].head == "entry"
+        eng.oblige("every-entry-converted-to-number-ordered-form-over-the-common-operators", z3.BoolVal(ok), detail=repr(res)[:200])
+        if ok:
+            src = res.args[0]
+            if kind == "scalar":
+                eng.oblige("scalar-term-wrapped-into-a-1x1-matrix", z3.BoolVal(scalar_input and src.head == "wrapped-1x1"), detail=repr(src))
+            else:
+                eng.oblige("matrix-term-converted-entry-wise-as-it-is", z3.BoolVal(src is value), detail=repr(src))
+    return run_unit(f"block_diagonalization:block_diagonalize/H_eval[{kind},scalar_input={scalar_input}]", harness,
+                    functions=[("block_diagonalization", "block_diagonalize/H_eval")], timeout_ms=timeout_ms)
+
+
+def unit_postprocessing_eval(kind, scalar_input, timeout_ms=20000):
+    """kind: 'zero' | 'one' | 'matrix1x1' | 'matrix'"""
+    node = frontend.find("block_diagonalization", "block_diagonalize/create_postprocessing_eval/postprocessing_eval")
+
+    def harness(eng):
+        from contracts.formats import T
+        from pyvc.models import ONE
+        reads = []
+        entry_is_nof = eng.fresh("entry_is_a_NumberOrderedForm", "bool")
+
+        class Entry(T):
+            def m_isinstance(s, e, c):
+                if c == "NumberOrderedForm":
+                    return e.branch(entry_is_nof)
+                return False
+
+            def m_getattr(s, e, name):
+                if name == "_poly_simplify":
+                    return Builtin("_poly_simplify", lambda e2: T("simplified", s))
+                return super().m_getattr(e, name)
+
+        class Mat(T):
+            def __init__(s, head, shape):
+                super().__init__(head)
+                s.kinds = ("MatrixBase",)
+                s.shape = STup([shape[0], shape[1]])
+
+            def m_getattr(s, e, name):
+                if name == "applyfunc":
+                    def af(e2, fn):
+                        x = Entry("entry")
+                        m = Mat("applied", (s.shape.items[0], s.shape.items[1]))
+                        m.fn_result, m.src, m.entry = e2.call(fn, [x], {}), s, x
+                        return m
+                    return Builtin("applyfunc", af)
+                return super().m_getattr(e, name)
+
+            def m_getitem(s, e, key):
+                k = e.as_seq(key)
+                if len(k.items) == 2 and all(isinstance(x, int) and x == 0 for x in k.items):
+                    return T("entry00", s)
+                raise Unsupported("matrix index")
+        value = {"zero": ZERO, "one": ONE, "matrix1x1": Mat("result", (1, 1)), "matrix": Mat("result", (2, 3))}[kind]
+
+        class Series(Model):
+            def m_getitem(s, e, key):
+                reads.append(key)
+                return value
+        eng.globals.update({"sympy": Namespace("sympy", {"MatrixBase": TypeObj("MatrixBase")}), "NumberOrderedForm": TypeObj("NumberOrderedForm")})
+        env = Env(None, {"block_series": Series(), "scalar_input": scalar_input})
+        idx = [SI(eng.fresh("i")), SI(eng.fresh("j")), SI(eng.fresh("n"))]
+        res = eng.call(Closure(node, env, "postprocessing_eval"), idx, {})
+        eng.oblige("reads-the-wrapped-series-once-at-the-requested-index", z3.BoolVal(len(reads) == 1 and all(a is b for a, b in zip(eng.as_seq(reads[0]).items, idx))))
+        if kind in ("zero", "one"):
+            return eng.oblige("sentinels-pass-through", z3.BoolVal(res is value))
+        unwrap = scalar_input and kind == "matrix1x1"
+        m = res.args[0] if (unwrap and isinstance(res, T) and res.head == "entry00") else res
+        eng.oblige("1x1-result-of-a-scalar-Hamiltonian-is-unwrapped-and-nothing-else", z3.BoolVal((isinstance(res, T) and res.head == "entry00") == unwrap), detail=repr(res)[:200])
+        ok = isinstance(m, Mat) and m.head == "applied" and m.src is value
+        eng.oblige("entries-processed-entry-wise-on-the-value-read", z3.BoolVal(ok), detail=repr(m)[:200])
+        if ok:
+            r = m.fn_result
+            simplified = isinstance(r, T) and r.head == "simplified" and r.args[0] is m.entry
+            eng.oblige("number-ordered-entries-are-simplified-other-entries-untouched", z3.If(entry_is_nof, z3.BoolVal(simplified), z3.BoolVal(r is m.entry)), detail=repr(r)[:200])
+    return run_unit(f"block_diagonalization:block_diagonalize/postprocessing_eval[{kind},scalar_input={scalar_input}]", harness,
+                    functions=[("block_diagonalization", "block_diagonalize/create_postprocessing_eval/postprocessing_eval")], timeout_ms=timeout_ms)
